@@ -190,6 +190,8 @@ func (o c18Op) String() string {
 		return fmt.Sprintf("SetPosition(p%d)", o.A)
 	case "SetPadding":
 		return fmt.Sprintf("SetPadding(%d)", o.A)
+	case "ValueSlot":
+		return fmt.Sprintf("Value(segment of p%d)", o.A)
 	case "AdvanceAndSetPadding":
 		return fmt.Sprintf("AdvanceAndSetPadding(%d,%d)", o.A/10, o.A%10)
 	case "FindClosure":
@@ -229,7 +231,7 @@ func c18Menu(full bool) []c18Op {
 		{"SetPadding", 0}, {"SetPadding", 1}, {"SetPadding", 3},
 		{"AdvanceAndSetPadding", 12}, {"AdvanceAndSetPadding", 20},
 		{"SkipSpaces", 0}, {"SkipBlankLines", 0}, {"ReadRune", 0}, {"PrecendingCharacter", 0},
-		{"Value", 0}, {"Match", 0}, {"FindSubMatch", 0}, {"ResetPosition", 0},
+		{"Value", 0}, {"ValueSlot", 0}, {"ValueSlot", 1}, {"Match", 0}, {"FindSubMatch", 0}, {"ResetPosition", 0},
 	}
 	for a := 0; a < 16; a++ {
 		if !full && a&1 != 0 && a&6 != 6 {
@@ -440,6 +442,20 @@ func (x *c18Exec) run(path []c18Op) (fail *c18Fail) {
 			want := before.Seg.Value(e.Src)
 			if !bytes.Equal(got, want) {
 				return &c18Fail{"value-differs-from-segment", fmt.Sprintf("step %d Value(%+v) = %q, the segment's own value is %q", i, before.Seg, got, want), string(want), string(got)}
+			}
+			if after := c18Position(rd); after != before {
+				return &c18Fail{"value-moved-cursor", fmt.Sprintf("step %d Value moved the cursor", i), "", ""}
+			}
+		case "ValueSlot":
+			// the value of a segment obtained earlier (possibly on another line than the cursor is on now)
+			if !have[o.A] || e.eof(slots[o.A]) {
+				return nil
+			}
+			sg := slots[o.A].Seg
+			got := rd.Value(sg)
+			want := sg.Value(e.Src)
+			if !bytes.Equal(got, want) {
+				return &c18Fail{"value-differs-from-segment", fmt.Sprintf("step %d Value(%+v) (segment saved as p%d, cursor now at line %d %+v) = %q, the segment's own value is %q", i, sg, o.A, before.Line, before.Seg, got, want), string(want), string(got)}
 			}
 			if after := c18Position(rd); after != before {
 				return &c18Fail{"value-moved-cursor", fmt.Sprintf("step %d Value moved the cursor", i), "", ""}
